@@ -118,7 +118,14 @@ func (a *AvgAggregator) Apply(v float64) {
 	}
 	// CA(n+1) = CA(n) + (x(n+1) - CA(n))/(n+1)
 	a.count++
-	a.avg += (v - a.avg) / a.count
+	d := v - a.avg
+	if math.IsInf(d, 0) && !math.IsInf(v, 0) && !math.IsInf(a.avg, 0) {
+		// The difference of two finite values of opposite sign overflowed
+		// (1e308 and -1e308): divide first, the average itself is finite.
+		a.avg += v/a.count - a.avg/a.count
+		return
+	}
+	a.avg += d / a.count
 }
 
 // Result implements Aggregator.
